@@ -417,9 +417,71 @@ fn check_valid(ctx: &mut Ctx, src: &'static str, e: &Element, a: &Option<AffineP
     Some(tag)
 }
 
+/// The same application step on the minimal build (second, heterogeneous node;
+/// no affine forms, no stream API there). `None`: the operation has no
+/// counterpart or an operand is missing.
+fn build_min(op: &EOp, mpool: &[Option<decaf377_min::Element>]) -> Option<decaf377_min::Element> {
+    use decaf377_min as m;
+    let get = |i: usize| -> Option<m::Element> {
+        if mpool.is_empty() {
+            Some(m::Element::GENERATOR)
+        } else {
+            mpool[i % mpool.len()]
+        }
+    };
+    let fr = |h: &str| m::Fr::from_le_bytes_mod_order(&unhex(h).unwrap_or_default());
+    let fq = |h: &str| m::Fq::from_le_bytes_mod_order(&unhex(h).unwrap_or_default());
+    Some(match op {
+        EOp::Generator | EOp::GroupGenerator => m::Element::GENERATOR,
+        EOp::IdentityConst | EOp::DefaultElem | EOp::ZeroTrait => m::Element::IDENTITY,
+        EOp::Decode(h) => m::Encoding(h32(h)).vartime_decompress().ok()?,
+        EOp::Elligator(h) => m::Element::encode_to_curve(&fq(h)),
+        EOp::Hash2(a, b) => m::Element::hash_to_curve(&fq(a), &fq(b)),
+        EOp::Add(i, j) => get(*i)? + get(*j)?,
+        EOp::AddRef(i, j) => &get(*i)? + &get(*j)?,
+        EOp::Sub(i, j) => get(*i)? - get(*j)?,
+        EOp::Double(i) => get(*i)?.double(),
+        EOp::Neg(i) => -get(*i)?,
+        EOp::SelfSub(i) => get(*i)? - get(*i)?,
+        EOp::PlusMinusOneTimes(i) => {
+            let p = get(*i)?;
+            p + p * (-m::Fr::from(1u64))
+        }
+        EOp::MulU64(i, k) => get(*i)? * m::Fr::from(*k),
+        EOp::MulFr(i, h) => get(*i)? * fr(h),
+        EOp::NegOfMul(i, h) => -(get(*i)? * fr(h)),
+        EOp::MulOfNeg(i, h) => get(*i)? * (-fr(h)),
+        EOp::AffineRoundTrip(i) | EOp::IntoAffine(i) => get(*i)?,
+        _ => return None,
+    })
+}
+
 fn build_pool(ctx: &mut Ctx, run: &IoRun) -> Vec<PoolEntry> {
     let mut pool: Vec<PoolEntry> = Vec::new();
+    let mut mpool: Vec<Option<decaf377_min::Element>> = Vec::new();
     for pop in &run.pool {
+        // heterogeneous node first (it only reads `mpool`, which mirrors `pool` index by index)
+        let mres = {
+            let mp = &mpool;
+            catch_unwind(AssertUnwindSafe(|| {
+                build_min(&pop.op, mp).map(|e| (e, e.vartime_compress().0))
+            }))
+        };
+        let (m_elem, m_bytes, m_panic) = match mres {
+            Ok(Some((e, b))) => (Some(e), Some(b), None),
+            Ok(None) => (None, None, None),
+            Err(p) => (None, None, Some(panic_msg(p))),
+        };
+        mpool.push(m_elem);
+        if let Some(msg) = m_panic {
+            ctx.viol(
+                "C03",
+                "panic",
+                format!("backend=minimal op={}", op_name(&pop.op)),
+                format!("minimal build panicked while building or encoding the element: {}", msg),
+            );
+        }
+        let pool_len_before = pool.len();
         let name = op_name(&pop.op);
         ctx.ev(name);
         let res = {
@@ -522,6 +584,28 @@ fn build_pool(ctx: &mut Ctx, run: &IoRun) -> Vec<PoolEntry> {
                     tag: Some(rd::identity()),
                     src: name,
                 });
+            }
+        }
+        // both builds must give the specification's bytes for the same application step
+        if let (Some(mb), true) = (m_bytes, pool.len() == pool_len_before + 1) {
+            if let Some(tag) = pool.last().and_then(|p| p.tag.clone()) {
+                if rd::valid_representative_cheap(&tag).is_ok() {
+                    match rd::encode(&tag) {
+                        Some(want) if want != mb => ctx.viol(
+                            "C03",
+                            "ser_bytes",
+                            format!("backend=minimal op={}", op_name(&pop.op)),
+                            format!(
+                                "minimal build encodes the result of {} as {} but the specification says {}",
+                                op_name(&pop.op),
+                                hex(&mb),
+                                hex(&want)
+                            ),
+                        ),
+                        Some(_) => ctx.probe("minimal_build_application_agreed"),
+                        None => {}
+                    }
+                }
             }
         }
     }
